@@ -25,6 +25,7 @@ if TYPE_CHECKING:
 
 # from .generator import msg_as_string, msg_headers_as_string
 from .generator import msg_as_bytes, msg_headers_as_bytes
+from .utils import quoted, quoted_bytes
 
 logger = logging.getLogger("asimap.fetch")
 
@@ -76,7 +77,7 @@ def encode_header(hdr: str) -> bytes:
             result = Header(hdr).encode(maxlinelen=0).encode("latin-1")
         except UnicodeEncodeError:
             result = hdr.encode("latin-1", errors="replace")
-    return b'"' + result + b'"'
+    return b'"' + quoted_bytes(result) + b'"'
 
 
 ########################################################################
@@ -545,12 +546,12 @@ class FetchAtt:
         for value in values:
             if "," in value:
                 for lng in value.split(","):
-                    langs.add(f'"{lng.strip()}"')
+                    langs.add(f'"{quoted(lng.strip())}"')
             elif ";" in value:
                 for lng in value.split(";"):
-                    langs.add(f'"{lng.strip()}"')
+                    langs.add(f'"{quoted(lng.strip())}"')
             else:
-                langs.add(f'"{value.strip()}"')
+                langs.add(f'"{quoted(value.strip())}"')
 
         if not langs:
             return b"NIL"
@@ -609,7 +610,7 @@ class FetchAtt:
 
         results = []
         for k, v in params.items():
-            results.append(f'"{k.upper()}" "{v}"')
+            results.append(f'"{quoted(k.upper())}" "{quoted(v)}"')
 
         try:
             res = (f"({' '.join(results)})").encode("latin-1")
@@ -653,12 +654,12 @@ class FetchAtt:
 
         params = msg["Content-Disposition"].params  # type: ignore[union-attr]
         if not params:
-            return (f'("{cd}" NIL)').encode("latin-1")
+            return (f'("{quoted(cd)}" NIL)').encode("latin-1")
 
         result = []
         for param, value in params.items():
-            result.append(f'"{param.upper()}" "{value}"')
-        res = f'("{cd.upper()}" ({" ".join(result)}))'
+            result.append(f'"{quoted(param.upper())}" "{quoted(value)}"')
+        res = f'("{quoted(cd.upper())}" ({" ".join(result)}))'
         try:
             return res.encode("latin-1")
         except UnicodeEncodeError:
@@ -723,7 +724,9 @@ class FetchAtt:
             # doing a 'body' not a 'bodystructure' then we have
             # everything we need to return a result.
             #
-            subtype = (msg.get_content_subtype().upper()).encode("latin-1")
+            subtype = quoted(msg.get_content_subtype().upper()).encode(
+                "latin-1"
+            )
             if not self.ext_data:
                 res = b"(" + b"".join(sub_parts) + b'"' + subtype + b'")'
                 return res
@@ -783,8 +786,8 @@ class FetchAtt:
         #
         maintype = msg.get_content_maintype()
         msg_subtype = msg.get_content_subtype()
-        result.append((f'"{maintype.upper()}"').encode("latin-1"))
-        result.append((f'"{msg_subtype.upper()}"').encode("latin-1"))
+        result.append((f'"{quoted(maintype.upper())}"').encode("latin-1"))
+        result.append((f'"{quoted(msg_subtype.upper())}"').encode("latin-1"))
 
         result.append(self.body_parameters(msg))  # type: ignore[arg-type]
 
@@ -796,7 +799,7 @@ class FetchAtt:
             if "Content-Transfer-Encoding" in msg
             else "7BIT"
         )
-        result.append((f'"{cte}"').encode("latin-1"))
+        result.append((f'"{quoted(cte)}"').encode("latin-1"))
 
         # Body size
         payload = msg_as_bytes(msg, render_headers=False)
